@@ -146,7 +146,7 @@ def campaign(pid, plans):
         if pl.get("limit") and len(sch) > pl["limit"]:
             sch = rnd.sample(sch, pl["limit"])
         cases = [{"msgs": pl["msgs"], "prog": pl["prog"], "sched": s["sched"], "log": s["log"], "selects": s["selects"],
-                  "procs": list(pl.get("crashers", ()))} for s in sch]
+                  "procs": list(pl.get("crashers", ())), "attach": bool(pl.get("attach"))} for s in sch]
         verdicts = replay(cases)
         nbad = 0
         for c, v in zip(cases, verdicts):
